@@ -29,6 +29,17 @@ ASSUME_COMMON = [
 ]
 
 
+def shadow_cfgs(fams):
+    """Builds the shadow configurations relevant to `fams` (from the current /repo tree) and returns [(id, family)]."""
+    from . import shadow
+    out = []
+    for sid, fam in (("aes-fix32", "AES"), ("aes-fix32-compact", "AES"), ("aes-armv8", "AES"), ("kuz-neon", "Kuznyechik")):
+        if fam in fams:
+            shadow.build_shadow(sid)
+            out.append((sid, fam))
+    return out
+
+
 def cost_conf(fam):
     w = {"Blowfish": 40, "Kuznyechik": 8, "Serpent": 6, "Threefish": 6, "Gift": 6}.get(fam, 1)
 
@@ -350,12 +361,25 @@ def c16(tier, seed):
 
 def c19(tier, seed):
     c = Check("C19", tier, seed)
-    evs = c.drive("default", "names", keys=64 if tier == T else 4)
+    nk = 64 if tier == T else 4
+    evs = c.drive("default", "names", keys=nk)
     c.validate(evs, API_MOD, API_CFG, "names", what="Debug/AlgorithmName")
+    # the texts are written separately per backend module: every backend's impls are exercised
+    plan = [("aes-soft", {}, "AES"), ("aes-soft-compact", {}, "AES"), ("aes-compact", {}, "AES"),
+            ("aes-detect-off", {"force_off": 1}, "AES"), ("kuz-soft", {}, "Kuznyechik"), ("kuz-compact", {}, "Kuznyechik"),
+            ("serpent-loop", {}, "Serpent"), ("feat-all", {}, None)]
+    plan += [(sid, {}, fam) for sid, fam in shadow_cfgs(("AES", "Kuznyechik"))]
+    for i, (cfg_id, extra, fam) in enumerate(plan):
+        kw = dict(keys=nk)
+        if fam:
+            kw["family"] = fam
+        kw.update(extra)
+        e = renumber(c.drive(cfg_id, "names", **kw), (i + 1) * 10_000_000)
+        c.validate(e, API_MOD, API_CFG, f"names-{cfg_id}", what=f"Debug/AlgorithmName ({cfg_id})", shards=2)
     c.exhaustive = True
-    rule = ("every catalogue type: Debug text of instances under different keys identical, contains the type's own name tokens as "
-            "whole words (spec/NameTokens.tla), RC5 digit groups = <<w,r,b>>; AlgorithmName carries algorithm and parameter tokens; "
-            "exhaustive over the compiled types, keys sampled")
+    rule = ("every catalogue type, in every backend configuration that has its own impls: Debug text of instances under different "
+            "keys identical, contains the type's own name tokens as whole words (spec/NameTokens.tla), RC5 digit groups = <<w,r,b>>; "
+            "AlgorithmName carries algorithm and parameter tokens; exhaustive over the compiled types and configurations, keys sampled")
     return c.finish(rule, ASSUME_COMMON)
 
 
